@@ -135,6 +135,25 @@ def circuit_jobs(ctx, small=False):
                             a, b = b, a
                         gates.append((rnd.choice(["cx", "cz", "swap", "swap"]), [a, b]))
                 jobs.append((n, conn, gates, t % len(LAYOUTS)))
+    # the library's own circuits fed back in, padded with gates that change nothing (every two-qubit gate written three times / one of them three times / an H pair):
+    # the input then uses exactly the optimal circuit's kinds of gates, only more often - a compressor must still deliver the class cost
+    if not small:
+        import htstabilizer.circuit_lookup as cl
+        for n, conn in docs.ADVERTISED:
+            ks = list(range(docs.CLASS_COUNT[n]))
+            if len(ks) > 20:
+                rnd.shuffle(ks)
+                ks = sorted(ks[:12 if ctx.quick else 60])
+            for k in ks:
+                base, _ = adapt.read_tokens(cl.stabilizer_circuit_lookup(n, conn, k).circuit_string)
+                base = [(nm, list(q)) for nm, q in base]
+                two = [i for i, g in enumerate(base) if len(g[1]) == 2 and g[0] in ("cx", "cz", "swap")]
+                if not two:
+                    continue
+                pick = rnd.choice(two)
+                jobs.append((n, conn, [g for i, g in enumerate(base) for _ in range(3 if i == pick else 1)], 0))
+                jobs.append((n, conn, [g for i, g in enumerate(base) for _ in range(3 if i in two else 1)], 0))
+                jobs.append((n, conn, base + [("h", [0]), ("h", [0])], 0))
     per = (2 if small else 8) if ctx.quick else (10 if small else 80)
     for n, conn in docs.ADVERTISED:
         gi = gate_instances(n)
